@@ -384,7 +384,8 @@ fn wild_string(fi: usize) -> BoxedStrategy<String> {
         pool.push(r.clone());
     }
     prop_oneof![
-        70 => select(pool),
+        62 => select(pool),
+        8 => gen::edge_numeral(),
         15 => "\\PC{0,8}",
         15 => gen::name(fi, gen::NameProfile::Main),
     ]
